@@ -536,6 +536,11 @@ func rootSetups() []rootSetup {
 	embScalars := []Slot{{"Pname", vals.Str("RN")}, {"Ptotal", vals.Int(7)}, {"Label", vals.Str("RL")}, {"Total", vals.Int(7)}}
 	return []rootSetup{
 		{kind: "map", coll: "xs", slot: "xs", scalars: mapScalars, shadow: []string{"name"}, idxName: "total"},
+		// map roots that are not literally map[string]any: a named map type, and a typed map whose
+		// other keys (name, total) hold []int as well
+		{kind: "hmap", coll: "xs", slot: "xs", scalars: mapScalars, shadow: []string{"name"}, idxName: "total", thin: 4},
+		{kind: "map[]int", coll: "xs", slot: "xs", scalars: []Slot{{"name", vals.List("[]int", vals.Int(7))}, {"total", vals.List("[]int", vals.Int(8), vals.Int(9))}},
+			shadow: []string{"name"}, idxName: "total", only: "[]int"},
 		{kind: "root", coll: "Xs", slot: "Xs", scalars: stScalars, shadow: []string{"Name", "label"}, idxName: "total"},
 		{kind: "*root", coll: "ys", slot: "Ys", scalars: stScalars, shadow: []string{"Label", "Name"}, idxName: "Total"},
 		// vals.Rec as root: its only sequence field is Kids []Rec
@@ -614,7 +619,7 @@ func core1(full bool, yield func(Case) bool) {
 			d := Data{Root: rs.kind, Slots: append(append([]Slot{}, rs.scalars...), Slot{rs.slot, coll})}
 			if coll.K == "missing" {
 				d.Slots = d.Slots[:len(d.Slots)-1]
-				if rs.kind != "map" {
+				if !isMapRoot(rs.kind) {
 					// a struct always has its fields: a missing name is one that is no field
 					d.Slots = append(d.Slots, Slot{rs.slot, vals.V{K: "[]any", L: []vals.V{vals.Str("zz")}}})
 				}
@@ -1118,7 +1123,20 @@ func (g *gen) data() {
 	g.nils = g.int(0, 2, "nils") == 0
 	switch g.int(0, 9, "root") {
 	case 0, 1, 2:
-		g.d.Root = "map"
+		g.d.Root = []string{"map", "map", "hmap"}[g.int(0, 2, "maptype")]
+		if g.int(0, 5, "typedmap") == 0 {
+			// map[string][]int: every key is a list of ints, also the ones loop variables shadow
+			g.d.Root = "map[]int"
+			for _, k := range []string{"xs", "ys", "item", "i", "v", "name", "total", "value"} {
+				if g.int(0, 2, "has"+k) > 0 {
+					g.d.Slots = append(g.d.Slots, Slot{k, g.coll("[]int", 0, k)})
+				}
+			}
+			for _, s := range g.d.Slots {
+				g.roots = append(g.roots, s.N)
+			}
+			break
+		}
 		for _, k := range []string{"name", "label", "total", "out", "v", "i", "Name", "value", "id", "title", "type"} {
 			if g.int(0, 2, "has"+k) > 0 {
 				g.d.Slots = append(g.d.Slots, Slot{k, g.scalar(k)})
@@ -1494,6 +1512,8 @@ func classify(c Case) (bool, []string) {
 					switch c.Data.Root {
 					case "map":
 						cls["shadow:root-map-key"] = true
+					case "hmap", "map[]int":
+						cls["shadow:root-map-key("+c.Data.Root+")"] = true
 					default:
 						if (isEmbRoot(c.Data.Root) && erootAlias[nm] == nm) || (!isEmbRoot(c.Data.Root) && (rootAlias[nm] == nm || recAlias[nm] == nm)) {
 							cls["shadow:root-field-goname("+c.Data.Root+")"] = true
